@@ -86,6 +86,10 @@ class TupleCoord(recordclass.RecordClass, _IterableStub):
             return other == self.data()
         return other.data() == self.data()
 
+    def __ne__(self, other):
+        # The recordclass base brings its own __ne__, which knows nothing of the __eq__ above
+        return not self.__eq__(other)
+
     def __gt__(self, other):
         return all(x > y for x, y in zip(self, other))
 
